@@ -3,9 +3,9 @@ package main
 // Calls: models of external functions, inlining, modular contract application.
 
 import (
-	"sort"
 	"fmt"
 	"go/types"
+	"sort"
 	"strconv"
 	"strings"
 
